@@ -394,11 +394,11 @@ where
 /-! ## growth round fu5: 2-D Compound with five part kinds and > 4 parts; `transform_by` vs `+` in 3-D -/
 
 /-- parts of a 2-D compound: `0 r` ball, `1 he` cuboid, `2 n pts…` convex polygon (CCW), `3 a b c` triangle,
-`4 n pts… k idx…` TriMesh -/
+`4 a b` Segment (no area: `zero()`, a zero-mass member once placed) -/
 inductive Part2b where
   | base (p : Part2)
   | tri (t : Triangle2 Float)
-  | mesh (vs : List (V2 Float)) (idx : List (Nat × Nat × Nat))
+  | seg (a b : V2 Float)
 def ppart2b : P (Iso2 Float × Part2b) := do
   let m ← piso2
   let k ← pnat
@@ -407,12 +407,12 @@ def ppart2b : P (Iso2 Float × Part2b) := do
   | 1 => do let he ← pv2; pure (m, .base (.cuboid he))
   | 2 => do let vs ← plist pv2; pure (m, .base (.poly vs))
   | 3 => do let t ← ptri2; pure (m, .tri t)
-  | _ => do let vs ← plist pv2; let idx ← plist pidx; pure (m, .mesh vs idx)
+  | _ => do let a ← pv2; let b ← pv2; pure (m, .seg a b)
 /-- `Shape::mass_properties(density)` of a part (model side); `none` = rejected / panicking part -/
 def partMPb (d : Float) : Part2b → Option (MP2 Float)
   | .base p => partMP d p
   | .tri t => some (fromTriangle d t)
-  | .mesh vs idx => fromTrimesh d vs.toArray idx
+  | .seg _ _ => some MP2.zero
 def movePt (m : Iso2 Rat) (p : V2 Rat) : V2 Rat := ⟨m.re * p.x - m.im * p.y + m.t.x, m.im * p.x + m.re * p.y + m.t.y⟩
 /-- exact unit-density moments about the origin of a placed part, and the rounding allowance of its degenerate triangles -/
 def partMomb (m : Iso2 Rat) : Part2b → Option ((Rat × V2 Rat × Rat) × Rat)
@@ -420,14 +420,11 @@ def partMomb (m : Iso2 Rat) : Part2b → Option ((Rat × V2 Rat × Rat) × Rat)
   | .tri t =>
       let a := movePt m (q2 t.a); let b := movePt m (q2 t.b); let c := movePt m (q2 t.c)
       some (triMom a b c, triSlack a b c)
-  | .mesh vs idx =>
-      match resolveTris ((vs.map q2).map (movePt m)).toArray idx with
-      | none => none
-      | some ts => some (sumMom (ts.map fun t => triMom t.a t.b t.c), ts.foldl (fun s t => s + triSlack t.a t.b t.c) 0)
+  | .seg _ _ => some ((0, ⟨0, 0⟩, 0), 0)
 def partExtentb (m : Iso2 Rat) : Part2b → Rat
   | .base p => partExtent m p
   | .tri t => extent (ptsOfTri t)
-  | .mesh vs _ => extent (vs.map q2)
+  | .seg a b => extent [q2 a, q2 b]
 
 /-- exact image of origin moments `(μ, F, O)` under the rigid motion `x ↦ R x + t` -/
 def movedMom3 (R : RM3) (t : V3 Rat) (M : Rat × V3 Rat × RM3) : Rat × V3 Rat × RM3 :=
